@@ -116,6 +116,8 @@ static struct { const char *name; opfn fn; int forked; } OPS[] = {
     {"OPEN", op_open, 1},
     {"META", op_meta, 1},
     {"OPENM", op_openm, 1},
+    {"OPENRETRY", op_openretry, 1},
+    {"PINSWAP", op_pinswap, 1},
     {"READSEQ", op_readseq, 1},
     {"SCAN", op_scan, 1},
     {"CHUNKSEQ", op_chunkseq, 1},
